@@ -79,7 +79,7 @@ var c03kinds = []string{
 	"CollapseShortBranches", "CollapseLowSupport", "CollapseTopoDepth", "RemoveEdges", "CollapseClade",
 	"Resolve", "ResolveNamedInternalNodes", "AddBipartition", "RotateInternalNodes", "SortNeighborsByTips",
 	"GraftTreeOnTip", "GraftTipOnEdge", "Merge", "InsertIdenticalTips", "InsertIdenticalTip", "RemoveSingleNodes",
-	"NNI", "NNIundo", "NNI2", "NNI2undo1", "NNI2stale", "Rename", "RenameAuto", "RenameRegexp", "ShuffleTips", "Clone", "SubTree", "ReinitIndexes",
+	"NNI", "NNIundo", "NNI2", "NNI2undo1", "NNI2stale", "NNIlisted", "Rename", "RenameAuto", "RenameRegexp", "ShuffleTips", "Clone", "SubTree", "ReinitIndexes",
 }
 
 func c03harnessPanic(format string, a ...any) {
@@ -217,6 +217,20 @@ func c03apply(t *tree.Tree, op *c03op) (nt, extra *tree.Tree, err error) {
 		})
 		if !done && err == nil {
 			err = fmt.Errorf("harness: rearrangement %d/%d not offered (%d offered)", k, j, idx)
+		}
+	case "NNIlisted":
+		// the rearrangements are listed first; the children are re-ordered (I[1] = 0: sorted by number of tips,
+		// 1: mirrored by a rotation with fixed answers is not needed - reverse sort is obtained by sorting twice on a rerooted tree);
+		// then the k-th listed rearrangement is applied (and, I[2] = 1, undone)
+		var all []tree.Rearrangement
+		(&tree.NNIRearranger{}).Rearrange(t, func(r tree.Rearrangement) bool { all = append(all, r); return true })
+		if op.I[0] >= len(all) {
+			err = fmt.Errorf("harness: rearrangement %d not offered (%d offered)", op.I[0], len(all))
+			break
+		}
+		t.SortNeighborsByTips()
+		if err = all[op.I[0]].Apply(); err == nil && op.I[1] == 1 {
+			err = all[op.I[0]].Undo()
 		}
 	case "Rename":
 		m := map[string]string{}
@@ -509,6 +523,8 @@ func c03enum(t *tree.Tree, step int) (ops, rnd []c03op) {
 	for k := 0; k < nnni; k++ {
 		addc(true, c03op{K: "NNI", I: []int{k}})
 		add(c03op{K: "NNIundo", I: []int{k}})
+		add(c03op{K: "NNIlisted", I: []int{k, 0}})
+		add(c03op{K: "NNIlisted", I: []int{k, 1}})
 		for j := k + 1; j < nnni; j++ {
 			add(c03op{K: "NNI2", I: []int{k, j}})
 			add(c03op{K: "NNI2undo1", I: []int{k, j}})
